@@ -374,7 +374,7 @@ func genWireItems(r *sim.Rng, n int, asPublisher bool) []WireItem {
 			items = append(items, WireItem{Kind: "msg", Type: []int{20, 18, 17}[r.Intn(3)], Csid: 3, Msid: r.Intn(2), Gen: gen, N: depth})
 		case 7: // malformed chunk headers
 			items = append(items, WireItem{Kind: "badchunk", Fmt: r.Intn(4), Csid: []int{0, 1, 2, 63, 64, 255, 319, 65535}[r.Intn(8)], Shape: r.Intn(3), Type: types[r.Intn(len(types))], Msid: r.Intn(3),
-				Ts: []uint32{0, 1, 0xFFFFFE, 0xFFFFFF, 0x1000000, 0xFFFFFFFF}[r.Intn(6)], Len: []int{-1, 0, 1, 0xFFFFFF, 0x800000, 5}[r.Intn(6)], Gen: "rand", N: r.Intn(300), Seed: seed})
+				Ts: []uint32{0, 1, 0xFFFFFE, 0xFFFFFF, 0x1000000, 0xFFFFFFFF}[r.Intn(6)], Len: []int{-1, -1, 0, 1, 5, 100, 4096, 70000, -1, -1, 0xFFFFFF, 0x800000}[r.Intn(12)], Gen: "rand", N: r.Intn(300), Seed: seed})
 		case 8:
 			items = append(items, WireItem{Kind: "raw", N: 1 + r.Intn(500), Seed: seed})
 		case 9:
